@@ -305,6 +305,11 @@ func descStruct(rv reflect.Value, depth int, inMem bool) *D {
 			}
 			continue
 		}
+		if inMem && name == "Scratch_" {
+			// a scratch field of a struct reached through a pointer: whoever holds the
+			// pointer may have written to it; only copies (struct values) are compared
+			continue
+		}
 		fd := desc(f, depth+1, inMem)
 		if fd.K != "zero" && fd.V != "zero" {
 			allZero = false
